@@ -523,6 +523,12 @@ impl Schedule {
         provider: VehicleIdx,
         receiver: VehicleIdx,
     ) -> Result<(Schedule, Option<VehicleIdx>), String> {
+        if provider == receiver {
+            return Err(format!(
+                "Cannot override_reassign segment {} from vehicle {} to itself.",
+                segment, provider,
+            ));
+        }
         if !self.check_receiver_type_compatibility(provider, receiver, segment) {
             return Err(format!(
                 "Cannot override_reassign segment {} from vehicle {} to vehicle {}. Vehicle types do not match and segment contains service trip.",
